@@ -259,14 +259,14 @@ theorem readUntilImageData_setLocal (cfg : Cfg) (t : TCfg) (r x : R) :
       cases r'.dec.info with
       | none => exact ⟨rfl, fun h => by cases h⟩
       | some i =>
-        simp only
-        cases bppFromUsize (bytesPerPixel i.color i.depth) with
-        | none => exact ⟨rfl, fun h => by cases h⟩
-        | some bpp =>
-          simp only [reserveBytes]
-          by_cases hl : r'.dec.limit ≥ outLineSize t i r'.flags (Sub.new i).width
-          · rw [if_pos hl, if_pos hl]; exact ⟨rfl, fun _ => rfl⟩
-          · rw [if_neg hl, if_neg hl]; exact ⟨rfl, fun h => by cases h⟩
+        simp only [reserveBytes]
+        by_cases hl : r'.dec.limit ≥ outLineSize t i r'.flags (Sub.new i).width
+        · rw [if_pos hl, if_pos hl]
+          simp only
+          cases bppFromUsize (bytesPerPixel i.color i.depth) with
+          | none => exact ⟨rfl, fun h => by cases h⟩
+          | some bpp => exact ⟨rfl, fun _ => rfl⟩
+        · rw [if_neg hl, if_neg hl]; exact ⟨rfl, fun h => by cases h⟩
 
 /-- `next_frame_info` once the previous frame's data has been passed -/
 def afterSkip (cfg : Cfg) (t : TCfg) (r1 : R) : R × Res :=
